@@ -21,7 +21,7 @@ enum Tr {
     V(BatchVisualSort),
 }
 
-fn run_workload(ctl: &std::sync::Arc<Ctl>, kind: &str, ns: usize, nv: usize, batches: &[Vec<u64>], uid_out: &mpsc::Sender<u64>) {
+fn run_workload(ctl: &std::sync::Arc<Ctl>, kind: &str, ns: usize, nv: usize, batches: &[Vec<u64>], uid_out: &mpsc::Sender<u64>, getter: bool, seed: u64) {
     let mut cfg = Cfg::default();
     cfg.shards = ns;
     cfg.voters = nv;
@@ -38,6 +38,24 @@ fn run_workload(ctl: &std::sync::Arc<Ctl>, kind: &str, ns: usize, nv: usize, bat
     };
     let _ = uid_out.send(uid);
     ctl.start_recording();
+    // optional second thread that retrieves the results of every batch (slowly), in batch order
+    let (htx, hrx) = mpsc::channel::<(u64, similari::trackers::batch::PredictionBatchResult, usize)>();
+    let gctl = ctl.clone();
+    let gthread = if getter {
+        Some(std::thread::spawn(move || {
+            let mut rng = StdRng::seed_from_u64(seed ^ 0x9e77);
+            while let Ok((b, res, n)) = hrx.recv() {
+                for _ in 0..n {
+                    std::thread::sleep(Duration::from_micros(rng.gen_range(0..3000)));
+                    gctl.log("g.get.before", &[b, 0]);
+                    let (scene, recs) = res.get();
+                    gctl.log("g.get.after", &[b, scene, recs.len() as u64]);
+                }
+            }
+        }))
+    } else {
+        None
+    };
     for (bi, scenes) in batches.iter().enumerate() {
         let b = bi as u64 + 1;
         ctl.log("c.predict", &[b, 0]);
@@ -47,6 +65,9 @@ fn run_workload(ctl: &std::sync::Arc<Ctl>, kind: &str, ns: usize, nv: usize, bat
                 for s in scenes {
                     req.add(*s, (slot_box(1 + (*s as i64 % 2), 900), None));
                 }
+                if getter {
+                    htx.send((b, res.clone(), scenes.len())).unwrap();
+                }
                 x.predict(req);
                 res
             }
@@ -55,16 +76,25 @@ fn run_workload(ctl: &std::sync::Arc<Ctl>, kind: &str, ns: usize, nv: usize, bat
                 for s in scenes {
                     req.add(*s, VisualSortObservation::new(None, None, slot_box(1 + (*s as i64 % 2), 900), None));
                 }
+                if getter {
+                    htx.send((b, res.clone(), scenes.len())).unwrap();
+                }
                 x.predict(req);
                 res
             }
         };
         ctl.log("c.predict.ret", &[b, 0]);
-        for _ in 0..scenes.len() {
-            ctl.log("c.get.before", &[b, 0]);
-            let (scene, recs) = res.get();
-            ctl.log("c.get.after", &[b, scene, recs.len() as u64]);
+        if !getter {
+            for _ in 0..scenes.len() {
+                ctl.log("c.get.before", &[b, 0]);
+                let (scene, recs) = res.get();
+                ctl.log("c.get.after", &[b, scene, recs.len() as u64]);
+            }
         }
+    }
+    drop(htx);
+    if let Some(g) = gthread {
+        let _ = g.join();
     }
     ctl.log("c.drop", &[0, 0]);
     drop(t);
@@ -87,6 +117,7 @@ pub fn main(opts: &Opts) {
         }
         batches.push(sc);
     }
+    let getter = opts.get("getter").is_some();
     let ctl = Ctl::install();
     ctl.set_delays(seed, opts.u64("delay-us", 500));
     let (utx, urx) = mpsc::channel();
@@ -95,7 +126,7 @@ pub fn main(opts: &Opts) {
     let kind2 = kind.clone();
     let b2 = batches.clone();
     std::thread::spawn(move || {
-        run_workload(&ctl2, &kind2, ns, nv, &b2, &utx);
+        run_workload(&ctl2, &kind2, ns, nv, &b2, &utx, getter, seed);
         let _ = dtx.send(());
     });
     let uid = urx.recv_timeout(Duration::from_secs(20)).unwrap_or(0);
@@ -104,7 +135,7 @@ pub fn main(opts: &Opts) {
     Ctl::uninstall();
     let out = opts.str("out", "/dev/stdout");
     let mut f = std::io::BufWriter::new(std::fs::File::create(&out).expect("create out"));
-    writeln!(f, "{}", json!({"seq": 0, "ev": "config", "a": 0, "b": 0, "ns": ns, "nv": nv, "batches": batches, "kind": kind})).unwrap();
+    writeln!(f, "{}", json!({"seq": 0, "ev": "config", "a": 0, "b": 0, "ns": ns, "nv": nv, "batches": batches, "kind": kind, "getter": if getter { 1 } else { 0 }})).unwrap();
     let mut n = 0;
     for e in events {
         let (a, b) = match e.site {
@@ -115,7 +146,7 @@ pub fn main(opts: &Opts) {
                 (e.args[1], e.args[2])
             }
             "w.cmd.end" | "owned.sent" => continue,
-            "c.get.after" => (e.args[0], e.args[1]),
+            "c.get.after" | "g.get.after" => (e.args[0], e.args[1]),
             _ => (e.args.first().copied().unwrap_or(0), e.args.get(1).copied().unwrap_or(0)),
         };
         n += 1;
